@@ -69,6 +69,7 @@ type Transport struct {
 	Writes    [][]byte
 	closed    bool
 	opened    bool
+	waiting   int // readers parked inside Read (nothing to deliver)
 	start     []byte
 	CloseN    int
 	// EmitDelay > 0: what the device emits in reaction to a write becomes readable only after this
@@ -228,6 +229,13 @@ func (t *Transport) IsAlive() bool {
 	return t.opened && !t.closed
 }
 
+// Waiting reports whether a reader is parked inside Read with nothing to deliver.
+func (t *Transport) Waiting() bool {
+	t.mu.Lock()
+	defer t.mu.Unlock()
+	return t.waiting > 0
+}
+
 func (t *Transport) Closed() bool {
 	t.mu.Lock()
 	defer t.mu.Unlock()
@@ -299,7 +307,9 @@ func (t *Transport) Read(n int) ([]byte, error) {
 			case CloseErr:
 				return nil, ErrSimIO
 			case CloseStaysBlocked:
+				t.waiting++
 				t.cond.Wait()
+				t.waiting--
 				continue
 			}
 		}
@@ -320,7 +330,9 @@ func (t *Transport) Read(n int) ([]byte, error) {
 		if !stalled && len(t.pending) > 0 {
 			break
 		}
+		t.waiting++
 		t.cond.Wait()
+		t.waiting--
 	}
 	limit := n
 	seg := t.DefaultSeg
